@@ -198,7 +198,7 @@ func (e *c04Exec) subRun(z zoneCfg) (out []string, sdig string, infra string) {
 	}
 	defer func() {
 		if p := recover(); p != nil {
-			infra = fmt.Sprintf("bubble panic: %v", p)
+			infra = bubblePanic(p, &v.Stats)
 		}
 	}()
 	runBubble(e.t, func(t *testing.T) {
@@ -213,6 +213,11 @@ func (e *c04Exec) subRun(z zoneCfg) (out []string, sdig string, infra string) {
 		r := &runCtx{c: c, stats: &v.Stats, in: in}
 		setRun(r)
 		defer setRun(nil)
+		defer func() {
+			if n := int(r.foreign.Load()); n > 0 {
+				v.Stats.probeN("library-goroutine-not-under-the-scheduler", n)
+			}
+		}()
 		compileOptCache = nil
 		if c.Knobs.ReuseOpts {
 			compileOptCache = map[string]fhirpath.CompileOption{}
@@ -261,14 +266,15 @@ func (e *c04Exec) subRun(z zoneCfg) (out []string, sdig string, infra string) {
 				for oi := range c.Clients[ci] {
 					op := &c.Clients[ci][oi]
 					oc := newOpCtx(op.FailN)
-					r.setRootOp(oc)
-					results[ci][oi] = execOp(op, oc, progs[op.Prog], in, nil)
+					if err := r.solo(oc, func() { results[ci][oi] = execOp(op, oc, progs[op.Prog], in, nil) }); err != nil {
+						infra = err.Error()
+						return
+					}
 				}
 			}
-			r.setRootOp(nil)
 		} else {
 			sc := newSched(c.tapeFor(), c.Knobs.SwitchThr, 6000)
-			r.sc = sc
+			r.attach(sc)
 			r.taskOps = make([]*opCtx, len(c.Clients))
 			clientPanics := make([]string, len(c.Clients))
 			for ci := range c.Clients {
@@ -306,7 +312,7 @@ func (e *c04Exec) subRun(z zoneCfg) (out []string, sdig string, infra string) {
 					}
 				}
 			})
-			r.sc = nil
+			r.detach(sc)
 			if err != nil {
 				infra = err.Error()
 				return
@@ -385,7 +391,6 @@ func (e *c04Exec) subRun(z zoneCfg) (out []string, sdig string, infra string) {
 					return
 				}
 				oc := newOpCtx(op.FailN)
-				r.setRootOp(oc)
 				// The isolated execution is pinned to the instant the shared execution actually used.
 				// The statement asks for ONE instant per evaluation, not for the instant of entry: an
 				// implementation may read the clock anywhere between entry and return.
@@ -414,17 +419,39 @@ func (e *c04Exec) subRun(z zoneCfg) (out []string, sdig string, infra string) {
 					}
 					continue
 				}
-				ref := execOp(op, oc, fresh, in2, &entry)
-				r.setRootOp(nil)
+				// (when the library runs goroutines of its own - instrumented build - the isolated
+				// execution follows the reference schedule: see runCtx.solo)
+				var ref opResult
+				if err := r.solo(oc, func() { ref = execOp(op, oc, fresh, in2, &entry) }); err != nil {
+					infra = err.Error()
+					return
+				}
 				src := c.Programs[op.Prog].Src
 				where := fmt.Sprintf("client %d op %d (%s %q)", ci, oi, op.Kind, src)
 				if got.Outcome != ref.Outcome {
 					e.violate("isolation-reference", "outcome:"+outcomeClass(got.Outcome, ref.Outcome),
 						fmt.Sprintf("%s: shared/interleaved outcome %s differs from isolated outcome %s (entry instant %s)", where, short(got.Outcome, 400), short(ref.Outcome, 400), entry.Format(time.RFC3339Nano)))
-				} else if got.Trace != ref.Trace || got.Nodes != ref.Nodes {
-					e.violate("isolation-reference", "trace", fmt.Sprintf("%s: node trace differs from the isolated execution (%d vs %d node entries)", where, got.Nodes, ref.Nodes))
-				} else if got.Probes != ref.Probes {
-					e.violate("isolation-reference", "probes", fmt.Sprintf("%s: callback observations differ: %s vs %s", where, short(got.Probes, 300), short(ref.Probes, 300)))
+				} else {
+					// Same outcome. How the library got there is its own business (a result it may
+					// legitimately have kept, a call it may have coalesced with an identical one): a
+					// different node trace or fewer callback invocations are recorded, not reported.
+					// What a user function was GIVEN is user-visible: every observation a callback made
+					// in the shared execution must be one it also makes in the isolated execution.
+					if got.Trace != ref.Trace || got.Nodes != ref.Nodes {
+						v.Stats.probe("same-outcome-different-node-trace")
+					}
+					if got.Probes != ref.Probes {
+						seen := map[string]bool{}
+						for _, o := range ref.probeList {
+							seen[o] = true
+						}
+						for _, o := range got.probeList {
+							if !seen[o] {
+								e.violate("isolation-reference", "probes", fmt.Sprintf("%s: a user function was called with %s, which it never receives in the isolated execution (there: %s)", where, short(o, 300), short(ref.Probes, 300)))
+								break
+							}
+						}
+					}
 				}
 				if got.NowBad {
 					e.violate("clock", "now-not-one-instant", where+": the evaluation context carried more than one value of Now across its node entries")
